@@ -399,7 +399,8 @@ impl ErrorBounds for mode::HalfEven {
         half_ulp.repr.exponent -= 1;
         half_ulp.repr.significand = UBig::from_word((B + 1) / 2).into(); // ceil division
 
-        let incl = f.repr.significand.bit(0);
+        // ties are rounded to this number iff its significand at full precision is even
+        let incl = (B % 2 == 0 && f.repr.digits() < f.precision()) || !f.repr.significand.bit(0);
         (half_ulp.clone(), half_ulp, incl, incl)
     }
 }
